@@ -217,16 +217,17 @@ theorem member_knock_eq_spec {m : MembershipAllower} {i : MemberInputs} {row : V
     accepts (memberCheck m i) = some (ruleKnock Departures.library i) := by
   rw [memberCheck_eq h hso]; simp [ruleByMembership, hn]
 
-/-- 5.4.1 third-party invites (D7): the model's `membershipAllowedFromThirdPartyInvite` against the rule -/
+/-- 5.4.1 third-party invites (D7): the model's `membershipAllowedFromThirdPartyInvite` against the rule (the empty token,
+    5.4.1.3, is refused when the contents are loaded: see `member_eq_spec`) -/
 theorem third_party_eq_spec (i : MemberInputs) (s : ThirdPartySigned) (tpKeys : Nat)
-    (htp : thirdPartyKeys i.p i.new = some tpKeys) :
+    (htp : thirdPartyKeys i.p i.new = some tpKeys) (htok : s.token.isEmpty = false) :
     accepts (if (i.target != s.mxid) = true then notAllowed
              else if (decide (tpKeys > 0) && s.sigs.any (fun dk => (b!"ed25519").isPrefixOf dk.2) && i.sig3pid) = true then pure ()
              else notAllowed) = some (ruleThirdPartyInvite Departures.library i s) := by
   unfold ruleThirdPartyInvite
   have hd7 : Departures.library.d7_thirdPartySynapse = true := rfl
-  rw [htp]
-  simp only [hd7, Bool.true_or, Bool.and_true]
+  rw [htp, htok]
+  simp only [hd7, Bool.true_or, Bool.and_true, Bool.not_false, Bool.true_and]
   by_cases hmx : i.target = s.mxid
   · simp only [hmx, bne_self_eq_false, Bool.false_eq_true, if_false, beq_self_eq_true, Bool.true_and]
     cases hcond : (decide (tpKeys > 0) && s.sigs.any (fun dk => (b!"ed25519").isPrefixOf dk.2) && i.sig3pid) <;> simp_all
